@@ -7,7 +7,7 @@ bases, which properties exist (values enter as short hashes), identity of conten
 the structural fingerprint — never from cfdm's `equals`).  Every decision that depends on the
 writer's registry (sharing, names, dimensions) is the model's.
 
-`abstract_field` returns None for features outside the model (compression, geometries, external
+`abstract_field` returns None for features outside the model (compression, geometries,
 variables, scalar formula-term parameters, UGRID); such scenarios are judged by the oracle alone.
 """
 import hashlib
@@ -263,11 +263,15 @@ def _abstract(f0, cids, fmt, string, cand):
             raise Unmodelled("data-less domain ancillary")
         reqs.append(["da", A.key(k), A.cons(c, 2), [_num(a) for a in da[k]], _base(c, default), A.breq(c)])
     for k, c in sorted(f.cell_measures(todict=True).items()):
+        ext = None
         if c.nc_get_external():
-            raise Unmodelled("external")
-        if c.get_measure(None) is None or c.get_data(None) is None:
+            # `_write_cell_measure`: an external measure needs a netCDF variable name (else ValueError)
+            ext = c.nc_get_variable(None)
+            if ext is None:
+                raise Unmodelled("external cell measure without netCDF variable name")
+        if c.get_measure(None) is None or (c.get_data(None) is None and ext is None):
             raise Unmodelled("cell measure without measure/data")
-        reqs.append(["ms", A.key(k), A.cons(c, 3), [_num(a) for a in da[k]], _base(c, "cell_measure"), c.get_measure()])
+        reqs.append(["ms", A.key(k), A.cons(c, 3), [_num(a) for a in da[k]], _base(c, "cell_measure"), c.get_measure(), ext])
     gm_work = [r.copy() for r in gm_refs]
     for r in ft_refs:
         cc = r.coordinate_conversion
